@@ -20,7 +20,8 @@ pub fn check_case(h: &History) -> CaseResult {
         .label_if(st.consume_while_pending > 0, "consume_between_register_and_fill")
         .label_if(st.max_pending >= 4, ">=4_pending")
         .label_if(st.merges > 0, "merge")
-        .label_if(st.takes > 0, "take_with_history"))
+        .label_if(st.takes > 0, "take_with_history")
+        .label_if(st.clones_with_pending > 0, "clone_with_placeholder_pending"))
 }
 
 /// Directed family: n placeholders separated by small pushes, filled in every
@@ -89,7 +90,7 @@ fn replay(_ctx: &Ctx, _group: &str, case: &Value) -> CaseResult {
 pub fn def() -> PropDef {
     PropDef {
         id: "C04",
-        rule: "Same interpreter and pipe model as C03, with an operation mix that keeps many placeholders in flight (register_patch and backfill are 30% of the operations; the outstanding placeholder to fill is picked at random, so most fills are out of order), small pushes between registration and fill (so the placeholder's slice keeps growing by merges) and byte-granular consumption right up to the blocked slice. Placeholders are 0..4 bytes, and in one registration out of four 5..4200 bytes; fill_chunk operations use up the arena's current chunk until a chosen number of bytes (0..4200) remain, by a push_copy into the iovec or by a dropped allocation, so that placeholders are registered at the very end of a chunk. With p = the model offset of the earliest pending placeholder, after every operation: every read-side view (stable_prefix, front, iovs in both arms, flatten in both arms, iteration, stable_consumer, Read, consume, advance_slices) exposes only bytes at offsets < p and they equal the model; a placeholder is never backfilled at an offset below the high-water mark of observed offsets (a byte once observed never changes); iovs / flatten / stable_consumer / has_pending_backrefs report success exactly when no placeholder is pending; with none pending every buffered byte is consumable. fill-order-permutations enumerates n = 1..5 (6) placeholders x all n! fill orders x 3 push-size variants. Non-trivial: >= 3 placeholders simultaneously pending with one filled out of order, or bytes consumed between a registration and its fill. Distinct: hash of the serialised history / by enumeration.",
+        rule: "Same interpreter and pipe model as C03, with an operation mix that keeps many placeholders in flight (register_patch and backfill are 30% of the operations; the outstanding placeholder to fill is picked at random, so most fills are out of order), small pushes between registration and fill (so the placeholder's slice keeps growing by merges) and byte-granular consumption right up to the blocked slice. clone() is also called while placeholders are pending (the copy must keep hiding them and what follows; each outstanding token is then used once, on the original or on the copy). Placeholders are 0..4 bytes, and in one registration out of four 5..4200 bytes; fill_chunk operations use up the arena's current chunk until a chosen number of bytes (0..4200) remain, by a push_copy into the iovec or by a dropped allocation, so that placeholders are registered at the very end of a chunk. With p = the model offset of the earliest pending placeholder, after every operation: every read-side view (stable_prefix, front, iovs in both arms, flatten in both arms, iteration, stable_consumer, Read, consume, advance_slices) exposes only bytes at offsets < p and they equal the model; a placeholder is never backfilled at an offset below the high-water mark of observed offsets (a byte once observed never changes); iovs / flatten / stable_consumer / has_pending_backrefs report success exactly when no placeholder is pending; with none pending every buffered byte is consumable. fill-order-permutations enumerates n = 1..5 (6) placeholders x all n! fill orders x 3 push-size variants. Non-trivial: >= 3 placeholders simultaneously pending with one filled out of order, or bytes consumed between a registration and its fill. Distinct: hash of the serialised history / by enumeration.",
         assumptions: &["as C03; only an upper bound is put on what is visible while a placeholder is pending (the implementation hides whole slices)"],
         exhaustive_note: Some("fill-order-permutations: complete enumeration of fill orders"),
         shards: |_t: Tier| 16,
